@@ -418,7 +418,8 @@ class PathIO(AbstractPathIO):
             @universal_exception
             async def __anext__(self):
                 if self.iter is None:
-                    self.iter = path.glob("*")
+                    # (`glob` swallows every error of the directory scan)
+                    self.iter = path.iterdir() if path.is_dir() else iter(())
                 try:
                     return next(self.iter)
                 except StopIteration:
@@ -540,7 +541,8 @@ class AsyncPathIO(AbstractPathIO):
             @_blocking_io
             def __anext__(self):
                 if self.iter is None:
-                    self.iter = path.glob("*")
+                    # (`glob` swallows every error of the directory scan)
+                    self.iter = path.iterdir() if path.is_dir() else iter(())
                 return self.worker()
 
         return Lister(timeout=self.timeout, executor=self.executor)
